@@ -267,6 +267,55 @@ func checkPlotOrder(c *Ctx, rule string, fn *ssa.Function, mapField string) {
 			c.OK(rule, key, c.Pos(fn.Pos()), "every normal exit passes the final checkpoint, whose value derives from HashMap.volume")
 		}
 	}
+	// (3b) the checkpoint recorded after a window never lies beyond what the window covered:
+	// with s = window start and w = window size (end = s + w), checkpoint = a*s + b*w + k must satisfy
+	// checkpoint <= s + w for every w >= 1 (resuming at `checkpoint` may redo work but never skips a slot)
+	{
+		key := name + ":checkpoint-not-beyond-window"
+		done := false
+		for _, a := range fieldAccesses(fn) {
+			if a.Kind != "store" || a.Type != tHashMap || a.Field != "checkpoint" || !blockReentered(fn, a.In) {
+				continue
+			}
+			st := a.In.(*ssa.Store)
+			e, ok := affine(st.Val)
+			if !ok {
+				c.Unk(rule, key, c.Pos(st.Pos()), "checkpoint value is not an affine expression of the window start and size")
+				done = true
+				continue
+			}
+			// leaves: the loop variable phi (start) and the window-size call result
+			var sCoef, wCoef int64
+			other := false
+			for leaf, co := range e.coef {
+				if co == 0 {
+					continue
+				}
+				switch leaf.(type) {
+				case *ssa.Phi:
+					sCoef += co
+				case *ssa.Call:
+					wCoef += co
+				default:
+					other = true
+				}
+			}
+			done = true
+			if other || sCoef != 1 {
+				c.Bad(rule, key, c.Pos(st.Pos()), fmt.Sprintf("the in-loop checkpoint is not window-start + (0 or 1)*window-size + constant (start coefficient %d)", sCoef))
+				continue
+			}
+			// (b-1)*w + k <= 0 for all w >= 1  <=>  b <= 1 and b - 1 + k <= 0
+			if wCoef <= 1 && wCoef-1+e.k <= 0 && wCoef >= 0 {
+				c.OK(rule, key, c.Pos(st.Pos()), fmt.Sprintf("checkpoint = start + %d*size + %d <= start + size for every size >= 1", wCoef, e.k))
+			} else {
+				c.Bad(rule, key, c.Pos(st.Pos()), fmt.Sprintf("checkpoint = start + %d*size + %d can exceed the end of the window just written: resuming there skips slots that were never plotted, and the plot still reports complete", wCoef, e.k))
+			}
+		}
+		if !done {
+			c.Bad(rule, key, c.Pos(fn.Pos()), "no in-loop checkpoint store found")
+		}
+	}
 	// (4) window placement: file offset of the window and the in-loop checkpoint derive from the same loop variable
 	for i, w := range ws {
 		key := fmt.Sprintf("%s:window-offset#%d", name, i+1)
@@ -327,7 +376,7 @@ func plotErrClass(fn *ssa.Function, call *ssa.Call) bool {
 }
 
 func checkC10(c *Ctx) Meta {
-	c.Rule("C10-ORDER", "in both plotting passes: window write -> Sync(data) -> UpdateCheckpoint -> Sync(checkpoint) on every path, every normal exit passes the final checkpoint (derived from the volume), each window is written at the offset of its own start point", 10)
+	c.Rule("C10-ORDER", "in both plotting passes: window write -> Sync(data) -> UpdateCheckpoint -> Sync(checkpoint) on every path, every normal exit passes the final checkpoint (derived from the volume), each window is written at the offset of its own start point; the in-loop checkpoint never lies beyond the window just written", 12)
 	c.Rule("C10-ERR", "no storage error on the plotting path is dropped: Sync, WriteAt, Seek, Read, WriteToWriter, UpdateCheckpoint results reach the pass's return as a non-nil error", 14)
 	c.Rule("C10-STOP", "an interrupted step is never taken for a completed one: on the plotting path the branch taken when the stop channel fires returns a provably non-nil error", 3)
 	c.Rule("C10-FRESH", "every window is computed into a freshly allocated (zeroed) cache: Update always reallocates, makeAvailableMemory always updates on success, every window write is preceded by it within its own round", 4)
